@@ -9,6 +9,7 @@ CONSTANTS
   MaxArity = 3
   Lanes = TRUE
   Record = FALSE
+  Sim = FALSE
   Bug = "sandwich-sides"
 INVARIANT RoutesAgree
 INVARIANT NamingKept
